@@ -129,7 +129,10 @@ func viaDirtyStack(ab []byte, as string, b []byte, v byte) (r1, r2 int, p any) {
 	return
 }
 
-func checkCmpUpto(a []byte, x Range) *vk.Failure {
+func checkCmpUpto(a []byte, x Range) *vk.Failure { return checkCmpUptoOpts(a, x, true) }
+
+// extras: the call-context and aliasing variants (in the big grid they run on a sample of the cases).
+func checkCmpUptoOpts(a []byte, x Range, extras bool) *vk.Failure {
 	e, f := encode(x)
 	if f != nil || e == nil {
 		return f
@@ -159,6 +162,30 @@ func checkCmpUpto(a []byte, x Range) *vk.Failure {
 	if reused {
 		if msg := scratch.Check(); msg != "" {
 			return vk.Failf("argument-spare-capacity-written", "CmpUpto: %s", msg)
+		}
+	}
+	if !extras {
+		return nil
+	}
+	// a key that is a view into the encoding's own memory (its first n bytes) must compare like a copy of those bytes
+	for _, n := range []int{0, 1, len(e) / 2, len(e) - 2, len(e) - 1} {
+		if n < 0 || n > len(e) {
+			continue
+		}
+		e2 := append([]byte(nil), e...)
+		view := e2[:n]
+		cp := append([]byte(nil), view...)
+		vb := model.StrBits(string(cp), 0, 8*len(cp))
+		if len(vb) > len(bb) {
+			vb = vb[:len(bb)]
+		}
+		wantV := sign(model.CmpBits(vb, bb))
+		var gv, gc int
+		if f := vk.Try(fmt.Sprintf("CmpUpto(b[:%d], b) with b = %x", n, e), func() { gv, gc = bitstr.CmpUpto(view, e2), bitstr.CmpUpto(cp, e2) }); f != nil {
+			return f
+		}
+		if gv != wantV || gc != wantV {
+			return vk.Failf("cmpupto-aliased-key", "CmpUpto(b[:%d], b) = %d and CmpUpto(copy of b[:%d], b) = %d, want %d (b = New(%x,%d,%d) = %x)", n, gv, n, gc, wantV, x.S, x.From, x.To, e)
 		}
 	}
 	// the string variant, from several call contexts
@@ -467,7 +494,7 @@ func TestGrid(t *testing.T) {
 			if len(xb) > 0 && len(a) >= (len(xb)+7)/8-1 {
 				nontriv++
 			}
-			if f := checkCmpUpto(a, rs[i]); f != nil {
+			if f := checkCmpUptoOpts(a, rs[i], (i+len(a))%6 == 0); f != nil {
 				fail(Case{Op: "cmpupto", X: rs[i], A: a, Class: "grid"}, f)
 			}
 		}
